@@ -5,7 +5,7 @@ def obligations():
     return [Ob('O16.2-topo-2', 'topo_sort_packages: Err <=> cycle or missing package; Ok => complete topological order (Main + 2)', pkg_ob.ob_topo, ('quick', 'thorough'), 5, dict(pkgs=['A', 'B'], self_imports=False)),
             Ob('O16.2-topo-self', 'topo_sort_packages with self-imports and a missing package named Builtin (Main + A)', pkg_ob.ob_topo, ('quick', 'thorough'), 3, dict(pkgs=['A'], extra=('Builtin', 'Zmissing'), self_imports=True)),
             Ob('O16.2-topo-2-self', 'topo_sort_packages with self-imports (Main + 2)', pkg_ob.ob_topo, ('thorough',), 100, dict(pkgs=['A', 'B'], self_imports=True)),
-            Ob('O16.2-topo-3', 'topo_sort_packages on Main + 3 packages', pkg_ob.ob_topo, ('thorough',), 50, dict(pkgs=['A', 'B', 'C'], self_imports=False))] + __import__('props.resolve_ob', fromlist=['x']).obligations_c16() + __import__('props.traitimpl_ob', fromlist=['x']).obligations_c16()
+            Ob('O16.2-topo-3', 'topo_sort_packages on Main + 3 packages (hash containers in insertion order: independence of the iteration order is decided on Main + 2, all permutations of Main + 3 exceed the path limit)', pkg_ob.ob_topo, ('thorough',), 50, dict(pkgs=['A', 'B', 'C'], self_imports=False, hash_order='insertion'))] + __import__('props.resolve_ob', fromlist=['x']).obligations_c16() + __import__('props.traitimpl_ob', fromlist=['x']).obligations_c16()
 META = {
     'level': 'other',
     'explanation': 'Bounded solver-checked obligation over the real topo_sort_packages / visit_package (MIR of the current tree, recursion, HashSet temp/perm marks, HashMap lookups, sorting): every import graph over the stated packages (each import bit a solver variable, a missing import target allowed) and every hash iteration order; Err must be returned iff a cycle or a missing package is reachable (reference DFS oracle), every Ok order must be a complete topological order.',
